@@ -77,6 +77,11 @@ def select__pi_kind_test(self: XPathFunction, context: ta.ContextType = None) \
 def nud__pi_kind_test(self: XPathFunction) -> XPathFunction:
     self.parser.advance('(')
     if self.parser.next_token.symbol != ')':
+        next_symbol = self.parser.next_token.symbol
+        if next_symbol not in ('(name)', '(string)') and \
+                self.parser.name_pattern.match(next_symbol) is not None:
+            # A PI target that is also a keyword or a function name (e.g. 'pi', 'text')
+            self.parser.next_token = self.parser.next_token.as_name()
         self.parser.next_token.expected('(name)', '(string)')
         self[0:] = self.parser.expression(5),
     self.parser.advance(')')
